@@ -974,7 +974,8 @@ func (s *Server) backgroundSyncAOF(wg *sync.WaitGroup) {
 }
 
 func isReservedFieldName(field string) bool {
-	switch field {
+	// (field names are stored trimmed)
+	switch strings.TrimSpace(field) {
 	case "z", "lat", "lon":
 		return true
 	}
